@@ -28,16 +28,18 @@ Definition drop_empty (p : path) : path := filter seg_ok p.
 Definition nested_of_paths (ps : list path) : nmask :=
   fold_left (fun m p => nm_insert (drop_empty p) m) ps (NM []).
 
-(* flat_map with failure *)
-Fixpoint otraverse {A B} (f : A -> option (list B)) (l : list A) : option (list B) :=
-  match l with
-  | [] => Some []
-  | x :: r =>
-      match f x with
-      | None => None
-      | Some ys => match otraverse f r with None => None | Some zs => Some (ys ++ zs) end
-      end
-  end.
+(* flat_map with failure (f is a parameter outside the fix so that nested recursion through it is
+   accepted by the guard checker, as for List.map) *)
+Definition otraverse {A B} (f : A -> option (list B)) : list A -> option (list B) :=
+  fix go (l : list A) : option (list B) :=
+    match l with
+    | [] => Some []
+    | x :: r =>
+        match f x with
+        | None => None
+        | Some ys => match go r with None => None | Some zs => Some (ys ++ zs) end
+        end
+    end.
 
 Definition osingle {A} (o : option A) : option (list A) := option_map (fun x => [x]) o.
 
